@@ -144,6 +144,44 @@ pub fn c08(ctx: &Ctx, subj: &dyn DynSubject, ty: &Ty, rep: &mut Report) {
                 }
             }
         }
+        // load_full reads sequentially: the same bytes arriving through a named pipe, in fragments, give the same value
+        if ent.pick(6) == 0 && !file.is_empty() {
+            use std::os::unix::ffi::OsStrExt;
+            let fifo = stored_path.with_extension("fifo");
+            let _ = std::fs::remove_file(&fifo);
+            let cpath = std::ffi::CString::new(fifo.as_os_str().as_bytes()).unwrap();
+            if unsafe { libc::mkfifo(cpath.as_ptr(), 0o600) } == 0 {
+                log.classes.push("load_full-from-named-pipe".into());
+                log.extra_evals += 1;
+                let chunk = 1 + ent.pick(4096);
+                let data = file.clone();
+                let wpath = fifo.clone();
+                let writer = std::thread::spawn(move || {
+                    use std::io::Write;
+                    if let Ok(mut f) = std::fs::OpenOptions::new().write(true).open(&wpath) {
+                        for c in data.chunks(chunk) {
+                            if f.write_all(c).is_err() {
+                                break;
+                            }
+                        }
+                    }
+                });
+                let r = guard(|| subj.load(Loader::LoadFull, &fifo, 0, Script::Direct));
+                // unblock a writer that nobody listened to, then collect it
+                {
+                    use std::os::unix::fs::OpenOptionsExt;
+                    let _ = std::fs::OpenOptions::new().read(true).custom_flags(libc::O_NONBLOCK).open(&fifo);
+                }
+                let _ = writer.join();
+                std::fs::remove_file(&fifo).ok();
+                match r {
+                    Ok(Ok(o)) if o.val == *v => {}
+                    other => {
+                        return Err(Fail::new("load-full-from-pipe", format!("load_full of a named pipe delivering the {} bytes of the file in chunks of {}: {:?}", file.len(), chunk, other.map(|r| r.map(|o| o.val.show()).map_err(|e| format!("{:#}", e))))).env(json!({"loader": "LoadFull", "pipe": true})))
+                    }
+                }
+            }
+        }
         std::fs::remove_file(&link).ok();
         std::fs::remove_file(&stored_path).ok();
         Ok(())
